@@ -6,7 +6,12 @@
  * the evaluator is verified for every id assignment at once (ids are symbolic ordered atoms in every C01 sketch): the
    answer is the canonical diagram of the same function of the same variables whatever the ids are;
  * to_free_index maps every free variable to its column for arbitrary, also non-contiguous, ids (orderings that are
-   supersets of the formula's variables); constructor: vars / free_vars sorted by id."""
+   supersets of the formula's variables); constructor: vars / free_vars sorted by id;
+ * the -o reader and -r of the binary (maincore.py): the real MIR of `main` under `-o <file>` for a family of concrete
+   file texts (permutations, subsets, supersets, repetitions, several names per line, punctuation) with the formula a
+   symbolic sketch over the named variables: the vector main hands to the parser must list the file's distinct names
+   in file order with strictly increasing ids; then header, rows and -r output are checked by name against the
+   reference semantics (tokenizer replaced by its contract: listed names keep their id, new names follow)."""
 import sys
 from runner import *   # noqa
 import props
@@ -15,6 +20,7 @@ import printcore
 import tokencore
 import evalcore
 import c09
+import maincore
 
 PID = 'C11'
 
@@ -29,12 +35,13 @@ def main():
         jobs.append(('eval %r k=3 (any ids)' % (sh,), evalcore.unit_sketch, (sh, 3, {})))
     for k in (2, 3):
         jobs.append(('print_truth_table_recursive k=%d (any ids)' % k, printcore.unit_print_table, (k, {})))
+    jobs += maincore.jobs_ordering(quick)
     jobs.append(('<BDD as PartialEq>::eq on canonical diagrams k=3', bddcore.unit_bdd_eq, (3, {})))
     rep = run_property(PID, lemma, ['and', 'or', 'not'], [],
                        bounds={'ordering_vector': '<= 2 symbols (3 thorough) with unknown names and unknown distinct 64-bit ids', 'identifiers': '<= 3 matches with unknown names',
-                               'atoms_k': 3},
+                               'atoms_k': 3, 'ordering_files': '%d concrete texts (%d thorough)' % (len(maincore.ORDERINGS), len(maincore.ORDERINGS) + len(maincore.ORDERINGS_MORE))},
                        assumptions=props.COMMON_ASSUME + ['regex engine modelled by its contract (see C08)'],
-                       uncovered=['reading the ordering file and -r printing (file system / stdout plumbing); the -r / -o round trip', 'duplicates and stray punctuation in the ordering file are tokenizer input (regex engine, outside the model)'],
+                       uncovered=['ordering files beyond the listed family of texts; formulas with more than one variable that the file does not list (their relative order depends on the sketch; covered at library level with symbolic ids)', 'the -r | -o round trip as one run (both halves are checked against the specification separately)', 'what the tokenizer makes of stray punctuation in the file (regex engine: modelled by its contract)'],
                        extra_jobs=jobs)
     sys.exit(rep.finish())
 
